@@ -818,7 +818,11 @@ func generateCert(sc *storageContext,
 		}
 
 		if rawExtKeyUsageOidsValue, ok := input.apiData.GetOk("ext_key_usage_oids"); ok {
-			data.Params.ExtKeyUsage = parseExtKeyUsagesValue(0, rawExtKeyUsageOidsValue.([]string))
+			extKeyUsageOIDs, err := validateExtKeyUsageOIDs(rawExtKeyUsageOidsValue.([]string))
+			if err != nil {
+				return nil, nil, err
+			}
+			data.Params.ExtKeyUsageOIDs = extKeyUsageOIDs
 		}
 
 		if data.SigningBundle == nil {
@@ -869,6 +873,17 @@ func generateCert(sc *storageContext,
 	}
 
 	return parsedBundle, warnings, nil
+}
+
+// validateExtKeyUsageOIDs checks the ext_key_usage_oids given to the CA
+// generation and signing endpoints, which are not checked by a role.
+func validateExtKeyUsageOIDs(oids []string) ([]string, error) {
+	for _, oidstr := range oids {
+		if _, err := certutil.StringToOid(oidstr); err != nil {
+			return nil, errutil.UserError{Err: fmt.Sprintf("%q could not be parsed as a valid oid for an extended key usage", oidstr)}
+		}
+	}
+	return oids, nil
 }
 
 // Generate a certificate evaluating params against CEL role
@@ -1125,7 +1140,11 @@ func signCert(b *backend,
 		}
 
 		if rawExtKeyUsageOidsValue, ok := data.apiData.GetOk("ext_key_usage_oids"); ok {
-			creation.Params.ExtKeyUsage = parseExtKeyUsagesValue(0, rawExtKeyUsageOidsValue.([]string))
+			extKeyUsageOIDs, err := validateExtKeyUsageOIDs(rawExtKeyUsageOidsValue.([]string))
+			if err != nil {
+				return nil, nil, err
+			}
+			creation.Params.ExtKeyUsageOIDs = extKeyUsageOIDs
 		}
 	} else {
 		for _, ext := range csr.Extensions {
